@@ -382,7 +382,12 @@ def h_simulate(env, opts, n, projective=False):
         s = make_solver(env, opts)
         k = s.ansatz.n_var_params
         th = vec(env, "th", ("ss" + "p" * k)[:k])
-        s.optimizer = lambda func, x0: (func(list(th)), list(th))
+        def _opt(func, x0):
+            # the optimiser's LAST evaluation is not at the point it returns (line searches, coordinate scans, ... end like this)
+            e_ = func(list(th))
+            func([0.0] * k)
+            return e_, list(th)
+        s.optimizer = _opt
         with sym_alloc(env):
             e_opt = s.simulate()
             st = R.run_gates(s.optimal_circuit._gates, n)
